@@ -13,27 +13,26 @@
 #include <orc/orcinternal.h>
 
 extern unsigned g_need;
-int g_n_pro, g_t_pro, g_n_epi, g_t_epi, g_n_set, g_t_set, g_n_restore, g_t_restore, g_n_emms, g_t_emms;
-int g_L;   /* ghost: the label the no-skip postcondition looks at (arbitrary) */
+int g_bad;             /* ghost: a state-changing event happened in a phase in which it must not */
+int g_n_pro, g_n_epi, g_n_set, g_n_restore, g_n_emms;
+int g_L;               /* ghost: the label the no-skip postcondition looks at (arbitrary) */
 
 /* --- callees cut out of the extracted copies (out/gen/c10/*_sk.c: the definitions of exactly these functions are renamed
- * real_<name>, everything else is the file as it is) and modelled by their effect on the ghost events ------------------- */
-#define EV(n, t) do { (n)++; (t) = g_t; g_t++; } while (0)
-void orc_x86_emit_prologue (OrcCompiler *compiler) { EV (g_n_pro, g_t_pro); }
-void orc_x86_emit_epilogue (OrcCompiler *compiler) { EV (g_n_epi, g_t_epi); }
-static void orc_x86_set_mxcsr (OrcX86Target *t, OrcCompiler *c) { EV (g_n_set, g_t_set); }
-static void orc_x86_restore_mxcsr (OrcX86Target *t, OrcCompiler *c) { EV (g_n_restore, g_t_restore); }
-static void orc_x86_clear_emms (OrcX86Target *t, OrcCompiler *c) { if (t->clear_emms) EV (g_n_emms, g_t_emms); }
+ * real_<name>, everything else is the file as it is) and modelled by their effect on the ghost phase -------------------- */
+void orc_x86_emit_prologue (OrcCompiler *compiler) { g_n_pro++; if (g_phase != PH_NONE) g_bad = 1; g_phase = PH_BODY; }
+static void orc_x86_set_mxcsr (OrcX86Target *t, OrcCompiler *c) { g_n_set++; if (g_phase != PH_BODY) g_bad = 1; g_phase = PH_FLUSH; }
+static void orc_x86_restore_mxcsr (OrcX86Target *t, OrcCompiler *c) { g_n_restore++; if (g_phase != PH_FLUSH) g_bad = 1; g_phase = PH_RESTORED; }
+static void orc_x86_clear_emms (OrcX86Target *t, OrcCompiler *c) { if (t->clear_emms) { g_n_emms++; if (g_phase != PH_BODY && g_phase != PH_RESTORED) g_bad = 1; g_phase = PH_EMMS; } }
+void orc_x86_emit_epilogue (OrcCompiler *compiler) { g_n_epi++; if (g_phase != PH_BODY && g_phase != PH_RESTORED && g_phase != PH_EMMS) g_bad = 1; g_phase = PH_DONE; }
 static int orc_x86_get_max_alignment_var (OrcX86Target *t, OrcCompiler *c) { int r = nondet_int (); __CPROVER_assume (r >= -1 && r <= ORC_VAR_S8); if (r < 0) c->error = 1; return r; }
 static void orc_x86_adjust_alignment (OrcX86Target *t, OrcCompiler *compiler) { }
-static void tick (void) { int d = nondet_int (); __CPROVER_assume (d >= 0 && d < 1000); g_t += d; }
-static void orc_x86_emit_loop (OrcCompiler *compiler, int offset, int update) { tick (); }
-static void orc_x86_save_registers (OrcX86Target *t, OrcCompiler *c) { tick (); }
-static void orc_x86_restore_registers (OrcX86Target *t, OrcCompiler *c) { tick (); }
-static void orc_x86_load_constants_outer (OrcX86Target *t, OrcCompiler *c) { tick (); }
-static void orc_x86_load_constants_inner (OrcCompiler *c) { tick (); }
-static void orc_x86_add_strides (OrcCompiler *c) { tick (); }
-static void orc_x86_save_accumulators (OrcX86Target *t, OrcCompiler *c) { tick (); }
+static void orc_x86_emit_loop (OrcCompiler *compiler, int offset, int update) { }
+static void orc_x86_save_registers (OrcX86Target *t, OrcCompiler *c) { }
+static void orc_x86_restore_registers (OrcX86Target *t, OrcCompiler *c) { }
+static void orc_x86_load_constants_outer (OrcX86Target *t, OrcCompiler *c) { }
+static void orc_x86_load_constants_inner (OrcCompiler *c) { }
+static void orc_x86_add_strides (OrcCompiler *c) { }
+static void orc_x86_save_accumulators (OrcX86Target *t, OrcCompiler *c) { }
 void orc_x86_calculate_offsets (OrcCompiler *p) { }
 void orc_x86_output_insns (OrcCompiler *p) { }
 void orc_x86_do_fixups (OrcCompiler *compiler) { }
@@ -42,34 +41,32 @@ int orc_program_has_float (OrcCompiler *compiler) { return nondet_int (); }
 
 /* --- the contract (assume/assert form in the harness below) ------------------------------------------------------ */
 #define X86T(c) ((OrcX86Target *)(c)->target->target_data)
-#define NOSKIP(tev) (g_label_pos[g_L] > (tev) ==> (g_first_branch[g_L] < 0 || g_first_branch[g_L] > (tev)))
+/* a label placed in phase >= ph is reached only by branches emitted in phase >= ph: nothing jumps over the transition */
+#define NOSKIP(ph) (g_label_phase[g_L] < (ph) || g_branch_phase[g_L] < 0 || g_branch_phase[g_L] >= (ph))
 
 #include "out/gen/c10/orcprogram_x86_sk.c"
 #include "stubs/log_stub.c"
 
+static int st_get_shift (int size) { return nondet_int (); }
 void h_x86_compile (void)
 {
   OrcCompiler *c = malloc (sizeof (OrcCompiler)); OrcTarget *tg = malloc (sizeof (OrcTarget)); OrcX86Target *t = malloc (sizeof (OrcX86Target));
   OrcProgram *pr = malloc (sizeof (OrcProgram));
   __CPROVER_assume (c != NULL && tg != NULL && t != NULL && pr != NULL);
-  tg->target_data = t; c->target = tg; c->program = pr; c->asm_code = NULL;
-  for (int i = 0; i < SK_LABELS; i++) { g_label_pos[i] = -1; g_first_branch[i] = -1; }
-  g_t = 0; g_n_pro = g_n_epi = g_n_set = g_n_restore = g_n_emms = 0;
+  tg->target_data = t; c->target = tg; c->program = pr; c->asm_code = NULL; t->get_shift = st_get_shift;
+  g_phase = PH_NONE; g_bad = 0; g_n_pro = g_n_epi = g_n_set = g_n_restore = g_n_emms = 0;
   g_L = nondet_int ();
   __CPROVER_assume (g_L >= 0 && g_L < SK_LABELS);
+  g_label_phase[g_L] = -1; g_branch_phase[g_L] = -1;   /* only the inspected label's entries are read */
   __CPROVER_assume (c->loop_shift >= 0 && c->loop_shift <= 5 && c->unroll_shift >= 0 && c->unroll_shift <= 1);
   __CPROVER_assume (t->label_step_up >= 0 && t->label_step_up <= 24);
   orc_x86_compile (c);
-  /* frame code: both or neither, once, prologue first and epilogue last */
-  __CPROVER_assert (g_n_pro == g_n_epi && g_n_pro <= 1, "postcondition: prologue and epilogue both or neither, once");
-  __CPROVER_assert (g_n_pro != 1 || (g_t_pro == 0 && g_t_pro < g_t_epi && g_label_pos[g_L] < g_t_epi && g_first_branch[g_L] < g_t_epi && g_t_epi == g_t - 1), "postcondition: prologue first, epilogue last");
-  /* MXCSR */
+  __CPROVER_assert (g_bad == 0, "postcondition: prologue, set_mxcsr, restore_mxcsr, emms, epilogue are emitted in this order");
+  __CPROVER_assert (g_n_pro == g_n_epi && g_n_pro <= 1 && (g_phase == PH_NONE || g_phase == PH_DONE), "postcondition: prologue and epilogue both or neither, once; the epilogue is last");
   __CPROVER_assert (g_n_set == g_n_restore && g_n_set <= 1 && g_n_set <= g_n_pro, "postcondition: MXCSR restored exactly as often as set");
-  __CPROVER_assert (g_n_set != 1 || (g_t_pro < g_t_set && g_t_set < g_t_restore && g_t_restore < g_t_epi), "postcondition: prologue < set_mxcsr < restore_mxcsr < epilogue");
-  /* emms */
-  __CPROVER_assert (!(g_n_pro == 1 && t->clear_emms != NULL) || (g_n_emms == 1 && g_t_pro < g_t_emms && g_t_emms < g_t_epi), "postcondition: emms once before the epilogue");
-  /* nothing jumps over the restoring code, nothing jumps into the function behind set_mxcsr */
-  __CPROVER_assert (g_n_restore != 1 || NOSKIP (g_t_restore), "postcondition: no branch skips restore_mxcsr");
-  __CPROVER_assert (g_n_emms != 1 || NOSKIP (g_t_emms), "postcondition: no branch skips emms");
+  __CPROVER_assert (!(g_n_pro == 1 && t->clear_emms != NULL) || g_n_emms == 1, "postcondition: emms once when the target has one");
+  __CPROVER_assert (g_n_restore != 1 || NOSKIP (PH_RESTORED), "postcondition: no branch skips restore_mxcsr");
+  __CPROVER_assert (g_n_emms != 1 || NOSKIP (PH_EMMS), "postcondition: no branch skips emms");
+  __CPROVER_assert (NOSKIP (PH_DONE) && g_label_phase[g_L] != PH_NONE, "postcondition: no label outside prologue..epilogue");
   REACH ();
 }
